@@ -61,7 +61,7 @@ func backends(r *ev.Run) []*sto.Spec {
 			sp("proxycache", map[string]any{"cacheBytes": 0}, sp("localdisk", nil)),
 		)
 		crng := r.Rand("compositions")
-		for i := 0; i < 12; i++ {
+		for i := 0; i < 24; i++ {
 			out = append(out, composition(crng, 3))
 		}
 	}
@@ -257,7 +257,7 @@ var blobSizes = []int{0, 1, 2, 17, 64, 255, 4096, 4097, 65537, 300, 1000}
 // script is the offer sequence of a normal session.
 func (s *session) script() {
 	rng := s.rng
-	nTrue := s.r.Pick(3, 7)
+	nTrue := s.r.Pick(4, 12)
 	seen := map[blob.Ref]bool{}
 	present := func(of *offer) {
 		switch s.path {
